@@ -4,7 +4,7 @@ CONSTANTS
   MergeTag = 2
   N = 3
   Kinds = {"b0", "fin"}
-  Ops = {"n", "s", "d", "x", "q"}
+  Ops = {"n", "s", "d", "x"}
   EmitEvery = 1
   EmitSalt = 0
 INVARIANTS InvAlgEqRef InvLcaWalk InvFoldWalk InvFinalize InvOnce InvDominator InvFinalizeFirst Emit
